@@ -265,6 +265,8 @@ def owners(div):
                 | ({"C13"} if ("start-rejected-valid" in txt or "start-accepted-invalid" in txt or "parse_options" in txt) else set())
                 | ({"C12"} if "mask-after-start" in txt else set())
                 | ({"C07"} if ("reproc_stop" in txt or "parse_stop_actions" in txt) else set())
+                | ({"C15"} if ("reproc_destroy" in txt or "parse_stop_actions" in txt) else set())   # the stop policy destroy applies is the one given at this handle's start
+                | ({"C08"} if any(w in txt for w in ("clock", "expiry", "deadline", "now ")) else set())   # every caller's deadlines are measured on the real clock
                 | ({"C17"} if ("hang" in txt or "rw-" in txt) else set())   # a call that waits for something other than the child
                 | ({"C02"} if any(w in txt for w in ("echo-differs", "read-end", "rw-", "reproc_read", "reproc_write", "reproc_drain", " drain ")) else set()))
     if kind == "optprod":
@@ -1382,10 +1384,10 @@ PROPS = {
     "C14": {"families": ["life", "faults", "env", "free"], "title": "life cycle; misuse errors, never UB"},
     "C02": {"families": ["stream", "drainbig", "threads", "free"], "title": "stream fidelity"},
     # (thorough: the destroy scripts also run through the C++ destructor in C16's cxx family)
-    "C15": {"families": ["destroy", "restart", "free"], "title": "destroy applies the stop policy"},
+    "C15": {"families": ["destroy", "restart", "threads", "free"], "title": "destroy applies the stop policy"},
     "C16": {"families": ["drain", "drainbig", "strtwice", "run", "nest", "cxx", "free"], "title": "drain and run"},
     "C17": {"families": ["stream", "wiring", "threads", "free"], "title": "nonblocking never blocks; blocking waits only for the child"},
-    "C08": {"families": ["poll", "restart", "free"], "title": "deadlines and timeouts bound every wait and poll"},
+    "C08": {"families": ["poll", "restart", "threads", "free"], "title": "deadlines and timeouts bound every wait and poll"},
     "C09": {"families": ["poll", "stream", "threads", "free"], "title": "poll reports exactly the true events"},
 }
 
@@ -1440,6 +1442,8 @@ def conclude(prop, tier, results, known, outdir, t0):
                     pass
             if res["family"] == "conc" and "/nonexistent" in json.dumps(d.get("call") or {}):
                 own |= {"C04"}   # the scenario in which one of the concurrent starts must fail with "no such program" and the other must run its own
+            if d.get("kind") == "early" and d.get("fn") in ("wait", "stop") and isinstance(d.get("obs"), dict) and isinstance(d["obs"].get("r"), int) and d["obs"]["r"] >= 0:
+                own |= {"C01"}   # an exit status was reported while the child had not ended
             if res["family"] in ("env", "env2") and "r" in (d.get("keys") or []) and isinstance(d.get("obs"), dict) and (d["obs"].get("r") == -2 or (isinstance(d.get("exp"), dict) and d["exp"].get("r") == -2)):
                 own |= {"C03"}   # the requested program was not found where the contract says it is: program resolution
             if "INFRA" in own:
